@@ -70,10 +70,10 @@ func main() {
 	seed := lib.Seed()
 	h := &harness{seed: seed, r: lib.NewRand(seed), rep: lib.NewReport("C20"), sigs: map[string]int{}, scale: 3, only: map[string]bool{}}
 	if lib.Tier() == "thorough" {
-		h.scale = 20
+		h.scale = 60
 	}
 	if os.Getenv("VERIF_MODE") == "search" {
-		h.scale = 30
+		h.scale = 80
 	}
 	if v := lib.EnvInt("VERIF_SCALE", 0); v > 0 {
 		h.scale = int(v)
